@@ -9,13 +9,20 @@
   yields the same symbol table and URL as the original download."
 
   The theorems are about `MdModel.CacheFs` (the state machine of `locate_symbols` /
-  `fetch_symbol_file` / `commit_cache_file` over an abstract file system) for an ARBITRARY parser
-  model `P` satisfying `ParserLaws P` (three theorems of the C09/C10 parser model, assumed here by
-  name: `callback_prefix`, `chunk_independent`, `info_url_trailer`), for ANY list of events (network
-  outcomes, i/o failures of the caching side, the drop point) and, where stated for a `World`, for
-  any number of concurrent calls of the same process under ANY interleaving.
-  `MdProofs.Lemmas.CacheFsToy` proves `ParserLaws` for the instance the compiled model runs, so the
-  hypotheses are inhabited (examples at the end).
+  `fetch_symbol_file` / `commit_cache_file` over an abstract file system), for ANY list of events
+  (network outcomes, i/o failures of the caching side, the drop point) and, where stated for a
+  `World`, for any number of concurrent calls of the same process under ANY interleaving.
+  They are stated twice:
+    * for an ARBITRARY parser model `P` satisfying the interface `ParserLaws P` (`callback_prefix`,
+      `chunk_independent`, `info_url_trailer`) — sections "cache_inv" … "cached_equals_original";
+    * for the REAL parser — `Real.model`: the byte-level model of the Breakpad symbol parser of
+      C09/C10 (`MdModel.SymLine`, `MdModel.SymParse`) inside the loop of `parse_async`
+      (`MdModel.Stream` blocks) — with NO assumed law: `MdProofs.Lemmas.CacheFsReal` proves
+      `ParserLaws Real.model` (`Real.laws`; `callback_prefix` and `chunk_independent` from C10's
+      machinery, `info_url_trailer` from the parser model, `MdProofs.Lemmas.SymTrailer`) — section
+      "the real parser". This is the instance the compiled model runs in the correspondence check.
+  `MdProofs.Lemmas.CacheFsToy` proves the laws for a small line-buffering instance as well, on which
+  the concrete runs at the end are decided by evaluation.
 
   What no theorem here shows (level: proof, PARTIAL): crashes of the process or the OS between
   `write` and `rename`, other processes sharing the cache directory, and file-system specific
@@ -24,6 +31,7 @@
 -/
 import MdProofs.Lemmas.CacheFs
 import MdProofs.Lemmas.CacheFsToy
+import MdProofs.Lemmas.CacheFsReal
 namespace MdModel.CacheFs
 
 variable {P : ParserModel}
@@ -328,31 +336,13 @@ def Result.sym (P : ParserModel) : Result → Option P.Sym
   | .downloaded rx u => (P.stream rx).map fun r => P.setUrl r.2 u
   | .notFound => none
 
-/-- **cached_equals_original** — "a later lookup served from the cache without network access yields
-    the same symbol table and URL as the original download": a call ends as `downloaded rx u` and
-    has put an entry `e` at its cache path (the name was free before). Then a later call for the
-    same module with NO server configured finds `e`, and parsing `e` gives exactly the table the
-    download returned, URL included. Uses `info_url_trailer` (for URLs as `Url::to_string` writes
-    them) and `chunk_independent` (hence `hshort`: all lines of the body shorter than 80 KiB, the
-    domain on which C10 proves that the streaming parse and the parse of the file agree).
-
-    That the committed body ends in a line feed — which `info_url_trailer` needs — is established
-    by the commit step itself (`ends_with_newline`, /repo 4002240). Before that repair the real
-    parser's `Ok` for a body with an over-long unterminated last line led to an entry whose note
-    was glued to that line and lost on re-reading; this check found it (corpus case `+L170000`). -/
-theorem cached_equals_original (hl : ParserLaws P) (c : Cache) (req : Req) (es : List Ev)
-    (rx : List Bytes) (u : Url) (e : Bytes) (hu : UrlClean u) (hshort : P.shortLines (bodyOf rx))
-    (hfree : c req.path = none)
+/-- the entry a successful download leaves on a free name is the body followed by the note, and
+    that body ends in a line feed (`ends_with_newline`, /repo 4002240) -/
+theorem cached_entry_shape (hl : ParserLaws P) (c : Cache) (req : Req) (es : List Ev)
+    (rx : List Bytes) (u : Url) (e : Bytes) (hfree : c req.path = none)
     (hrun : (runTask (P := P) c req .start es).2 = .done (.downloaded rx u))
     (hentry : (runTask (P := P) c req .start es).1 req.path = some (.file e)) :
-    let c' := (runTask (P := P) c req .start es).1
-    let later : Req := { path := req.path, localHit := none, urls := [] }
-    e = bodyOf rx ++ trailer u ∧
-    step (P := P) c' later .start .lookup = (c', .done (.localFile e)) ∧
-    (∃ t, Result.sym P (.downloaded rx u) = some (P.setUrl t u)) ∧
-    Result.sym P (.localFile e) = Result.sym P (.downloaded rx u) := by
-  intro c' later
-  -- the entry is the body plus the note
+    e = bodyOf rx ++ trailer u ∧ EndsNl (bodyOf rx) := by
   have key : ∀ (es : List Ev) (c0 : Cache) (ph : Phase P), PhaseInv req ph →
       (runTask c0 req ph es).2 = .done (.downloaded rx u) →
       (runTask c0 req ph es).1 req.path = c0 req.path ∨
@@ -377,12 +367,37 @@ theorem cached_equals_original (hl : ParserLaws P) (c : Cache) (req : Req) (es :
         · exact Or.inl h1
         · exact Or.inr (Or.inl ⟨h1, hends⟩)
         · exact Or.inr (Or.inr h1)
-  have he : e = bodyOf rx ++ trailer u ∧ EndsNl (bodyOf rx) := by
-    rcases key es c .start trivial hrun with h | ⟨h, hends⟩ | h
-    · rw [h, hfree] at hentry; cases hentry
-    · rw [h] at hentry; cases hentry; exact ⟨rfl, hends⟩
-    · rw [h] at hentry; cases hentry
-  obtain ⟨he, hnl⟩ := he
+  rcases key es c .start trivial hrun with h | ⟨h, hends⟩ | h
+  · rw [h, hfree] at hentry; cases hentry
+  · rw [h] at hentry; cases hentry; exact ⟨rfl, hends⟩
+  · rw [h] at hentry; cases hentry
+
+/-- **cached_equals_original** — "a later lookup served from the cache without network access yields
+    the same symbol table and URL as the original download": a call ends as `downloaded rx u` and
+    has put an entry `e` at its cache path (the name was free before). Then a later call for the
+    same module with NO server configured finds `e`, and parsing `e` gives exactly the table the
+    download returned, URL included. Uses `info_url_trailer` (for URLs as `Url::to_string` writes
+    them) and `chunk_independent` (hence `hshort`/`hshortE`: all lines of the body, and of the entry
+    — i.e. the note too —, shorter than 80 KiB, the domain on which C10 proves that the streaming
+    parse and the parse of the file agree).
+
+    That the committed body ends in a line feed — which `info_url_trailer` needs — is established
+    by the commit step itself (`ends_with_newline`, /repo 4002240). Before that repair the real
+    parser's `Ok` for a body with an over-long unterminated last line led to an entry whose note
+    was glued to that line and lost on re-reading; this check found it (corpus case `+L170000`). -/
+theorem cached_equals_original (hl : ParserLaws P) (c : Cache) (req : Req) (es : List Ev)
+    (rx : List Bytes) (u : Url) (e : Bytes) (hu : UrlClean u) (hshort : P.shortLines (bodyOf rx))
+    (hshortE : P.shortLines (bodyOf rx ++ trailer u)) (hfree : c req.path = none)
+    (hrun : (runTask (P := P) c req .start es).2 = .done (.downloaded rx u))
+    (hentry : (runTask (P := P) c req .start es).1 req.path = some (.file e)) :
+    let c' := (runTask (P := P) c req .start es).1
+    let later : Req := { path := req.path, localHit := none, urls := [] }
+    e = bodyOf rx ++ trailer u ∧
+    step (P := P) c' later .start .lookup = (c', .done (.localFile e)) ∧
+    (∃ t, Result.sym P (.downloaded rx u) = some (P.setUrl t u)) ∧
+    Result.sym P (.localFile e) = Result.sym P (.downloaded rx u) := by
+  intro c' later
+  obtain ⟨he, hnl⟩ := cached_entry_shape hl c req es rx u e hfree hrun hentry
   obtain ⟨t, hs⟩ : ∃ t, P.stream rx = some (bodyOf rx, t) := by
     rcases downloaded_is_complete hl c req .start trivial es rx u hrun with h | ⟨_, h⟩
     · cases h
@@ -398,7 +413,89 @@ theorem cached_equals_original (hl : ParserLaws P) (c : Cache) (req : Req) (es :
       rw [show c' req.path = some (.file e) from hentry]
     rw [this]
   · simp only [Result.sym, hs, he, Option.map_some]
-    exact hl.info_url_trailer (bodyOf rx) t u hu hnl hparse
+    exact hl.info_url_trailer (bodyOf rx) t u hu hnl hshortE hparse
+
+/-! ### the real parser: the same theorems with NO assumption about the parser
+
+  `Real.model` is the byte-level model of the Breakpad symbol parser (C09/C10: `MdModel.SymLine`,
+  `MdModel.SymParse`) driven by the loop of `parse_async` (the blocks of `MdModel.Stream`).
+  `Real.laws : ParserLaws Real.model` is proved in `MdProofs.Lemmas.CacheFsReal`; `Real.feed_total` /
+  `Real.finish_total` there show that the model's `none` only ever stands for an `Err` of
+  `parse_async` (no panic outcome, fuel never exhausted, `Ok` only at the end of the response). -/
+
+/-- the three parser laws are theorems for the real parser model -/
+theorem real_parser_laws : ParserLaws Real.model := Real.laws
+
+/-- **cache_inv**, real parser: every entry is an initial one, or
+    `body ++ "INFO URL " ++ url ++ "\n"` for a response that arrived completely and that
+    `parse_async` parsed `Ok`, requested at that URL for that path -/
+theorem cache_inv_real (c0 : Cache) (reqs : List Req) (evs : List (Nat × Ev)) :
+    let w := (World.mk (P := Real.model) c0 (reqs.map fun r => (r, .start))).run evs
+    ∀ p n, w.cache p = some n → c0 p = some n ∨ GoodEntry Real.model reqs p n :=
+  cache_inv Real.laws c0 reqs evs
+
+/-- … and such an entry's body ends in a line feed and (all lines shorter than 80 KiB) is
+    accepted by `SymbolFile::from_bytes` -/
+theorem goodEntry_parses_real {reqs : List Req} {p : Path} {n : Node} (h : GoodEntry Real.model reqs p n) :
+    ∃ body u, n = .file (body ++ trailer u) ∧ EndsNl body ∧
+      (Real.shortLines body → (Real.parse body).isSome = true) :=
+  goodEntry_parses Real.laws h
+
+/-- **failure_leaves_nothing**, real parser -/
+theorem failure_leaves_nothing_real (c : Cache) (req : Req) (ph : Phase Real.model)
+    (hph : PhaseInv req ph) (es : List Ev)
+    (hfail : ∀ rx u, (runTask c req ph es).2 ≠ .done (.downloaded rx u)) :
+    (runTask c req ph es).1 = c :=
+  failure_leaves_nothing Real.laws c req ph hph es hfail
+
+/-- **downloaded_is_complete**, real parser -/
+theorem downloaded_is_complete_real (c : Cache) (req : Req) (es : List Ev) (rx : List Bytes) (u : Url)
+    (hd : (runTask (P := Real.model) c req .start es).2 = .done (.downloaded rx u)) :
+    u ∈ req.urls ∧ ∃ t, Real.model.stream rx = some (bodyOf rx, t) := by
+  rcases downloaded_is_complete Real.laws c req .start trivial es rx u hd with h | h
+  · cases h
+  · exact h
+
+/-- **temp_is_prefix**, real parser -/
+theorem temp_is_prefix_real (c : Cache) (req : Req) (es : List Ev) (t : Bytes)
+    (h : (runTask (P := Real.model) c req .start es).2.temp = some t) :
+    ∃ u rest temp nl ps rx, (runTask (P := Real.model) c req .start es).2 = .streaming u rest temp nl ps rx ∧
+      ∃ more, t ++ more = bodyOf rx :=
+  temp_is_prefix Real.laws c req es t h
+
+/-- **cached_equals_original**, real parser — "a later lookup served from the cache without network
+    access yields the same symbol table and URL as the original download", with no assumption about
+    the parser: a call ends as `downloaded rx u` and has put an entry `e` on a free name, every line
+    of `e` being shorter than 80 KiB (C10's domain). Then `e` is the body followed by the note, a
+    later call with no server finds `e`, and `SymbolFile::from_file` on `e` (`Real.parse`) returns
+    exactly the table `parse_async` returned for the download, with `url = Some(u)`. -/
+theorem cached_equals_original_real (c : Cache) (req : Req) (es : List Ev)
+    (rx : List Bytes) (u : Url) (e : Bytes) (hu : UrlClean u) (hshort : Real.shortLines e)
+    (hfree : c req.path = none)
+    (hrun : (runTask (P := Real.model) c req .start es).2 = .done (.downloaded rx u))
+    (hentry : (runTask (P := Real.model) c req .start es).1 req.path = some (.file e)) :
+    let c' := (runTask (P := Real.model) c req .start es).1
+    let later : Req := { path := req.path, localHit := none, urls := [] }
+    e = bodyOf rx ++ trailer u ∧
+    step (P := Real.model) c' later .start .lookup = (c', .done (.localFile e)) ∧
+    ∃ t, Real.model.stream rx = some (bodyOf rx, t) ∧ Real.parse e = some { t with url := some u } := by
+  intro c' later
+  obtain ⟨he, _⟩ := cached_entry_shape Real.laws c req es rx u e hfree hrun hentry
+  have hE : Real.shortLines (bodyOf rx ++ trailer u) := he ▸ hshort
+  have hB : Real.shortLines (bodyOf rx) := Real.ShortLines.prefix hE
+  obtain ⟨h1, h2, _, h4⟩ := cached_equals_original Real.laws c req es rx u e hu hB hE hfree hrun hentry
+  obtain ⟨_, t, hs⟩ := downloaded_is_complete_real c req es rx u hrun
+  refine ⟨h1, h2, t, hs, ?_⟩
+  have h4' : Real.parse e = (Real.model.stream rx).map fun r => Real.model.setUrl r.2 u := h4
+  rw [h4', hs]
+  rfl
+
+/-- a sufficient condition for the hypothesis: an entry shorter than 80 KiB has short lines -/
+theorem shortLines_of_length (e : Bytes) (h : e.length < 81920) : Real.shortLines e := by
+  intro a seg b he _
+  have : e.length = a.length + seg.length + b.length := by rw [he]; simp only [List.length_append]
+  show seg.length < 163840 / 2
+  omega
 
 /-! ### the hypotheses are inhabited, and concrete runs -/
 
@@ -460,6 +557,97 @@ example :
 example :
     Toy.parse (l1 ++ l2 ++ l3 ++ trailer url0) =
       some { recs := (Toy.symOf (l1 ++ l2 ++ l3)).recs, url := some url0 } := by decide
+
+/-! #### the real parser on a concrete download
+
+  `MODULE Linux x86 ABC a\nFUNC 1000 10 0 f\n` arrives in two chunks split inside the FUNC line
+  (the body ends inside an open FUNC item, which the note then finishes): `parse_async` awaits
+  after each chunk (decided by evaluating the model), `finish` returns `Ok` (`Real.finish_total`
+  + evaluation of the loop), the entry is body ++ note, and — by `cached_equals_original_real` —
+  reading it back gives the downloaded table with the URL. -/
+
+private def rb1 : Bytes := asc "MODULE Linux x86 ABC a\nFUNC 10"
+private def rb2 : Bytes := asc "00 10 0 f\n"
+
+/-- the hypotheses of `cached_equals_original_real` are satisfiable, and its conclusion on that run -/
+example : ∃ t, Real.parse (rb1 ++ rb2 ++ trailer url0) = some { t with url := some url0 } ∧
+    Real.model.stream [rb2, rb1] = some (rb1 ++ rb2, t) := by
+  -- feeding the two chunks: the loop awaits after each, having handed the complete lines to the callback
+  have hA : (match Real.feed Real.init rb1 with
+      | some (s1, cb1) =>
+        (match Real.feed s1 rb2 with
+         | some (s2, cb2) =>
+           (cb1 ++ cb2 == rb1 ++ rb2) &&
+           (match Real.drain (Real.finishFuel s2) s2 with | some (.ok _, _) => true | _ => false)
+         | none => false)
+      | none => false) = true := by decide
+  cases hf1 : Real.feed Real.init rb1 with
+  | none => rw [hf1] at hA; cases hA
+  | some r1 =>
+    obtain ⟨s1, cb1⟩ := r1
+    rw [hf1] at hA
+    simp only [] at hA
+    cases hf2 : Real.feed s1 rb2 with
+    | none => rw [hf2] at hA; cases hA
+    | some r2 =>
+      obtain ⟨s2, cb2⟩ := r2
+      rw [hf2] at hA
+      simp only [Bool.and_eq_true, beq_iff_eq] at hA
+      obtain ⟨hcb, hdr⟩ := hA
+      have hrun : Real.model.runRev [rb2, rb1] = some (s2, cb1 ++ cb2) := by
+        show (match (match (some (Real.init, []) : Option (Real.LoopSt × Bytes)) with
+                | none => none
+                | some (s, cb) => (match Real.feed s rb1 with
+                  | none => none
+                  | some (s', cb') => some (s', cb ++ cb'))) with
+              | none => none
+              | some (s, cb) => (match Real.feed s rb2 with
+                | none => none
+                | some (s', cb') => some (s', cb ++ cb'))) = _
+        simp only [hf1, hf2, List.nil_append]
+      -- `finish`: total, and here not an `Err`
+      rcases Real.finish_total [rb2, rb1] s2 _ hrun with ⟨fin, t, hfin⟩ | ⟨k, l, sf, herr⟩
+      · have hbody := (Real.callback_prefix_real [rb2, rb1] s2 _ hrun).2 fin t hfin
+        have hstream : Real.model.stream [rb2, rb1] = some (rb1 ++ rb2, t) := by
+          unfold ParserModel.stream
+          rw [hrun]
+          simp only [hfin]
+          rw [hbody]
+          rfl
+        -- the run of the cache protocol: entry = body ++ note
+        have hf1' : Real.model.feed Real.model.init rb1 = some (s1, cb1) := hf1
+        have hf2' : Real.model.feed s1 rb2 = some (s2, cb2) := hf2
+        have hbody' : cb1 ++ cb2 ++ fin = rb1 ++ rb2 := hbody
+        have hnl : updNl (updNl (updNl false cb1) cb2) fin = true := by
+          rw [updNl_append, updNl_append, ← List.append_assoc, hbody']; decide
+        have hrun' : runTask (P := Real.model) empty req0 .start
+            [.lookup, .status 200 true, .chunk rb1 true, .chunk rb2 true, .eof okIo] =
+            (commit empty req0.path url0 (rb1 ++ rb2) okIo, .done (.downloaded [rb2, rb1] url0)) := by
+          have e1 : step (P := Real.model) empty req0 .start .lookup = (empty, .awaitStatus url0 [url1]) := rfl
+          have e2 : step (P := Real.model) empty req0 (.awaitStatus url0 [url1]) (.status 200 true) =
+              (empty, .streaming url0 [url1] (some []) false Real.model.init []) := rfl
+          simp only [runTask, e1, e2, step_chunk_some hf1', step_chunk_some hf2']
+          rw [step_eof_commit hfin (tt := rb1 ++ rb2) (by simp [tee, okIo, ← hbody']) hnl]
+        refine ⟨t, ?_, hstream⟩
+        have hentry : (runTask (P := Real.model) empty req0 .start
+            [.lookup, .status 200 true, .chunk rb1 true, .chunk rb2 true, .eof okIo]).1 req0.path =
+            some (.file (rb1 ++ rb2 ++ trailer url0)) := by rw [hrun']; rfl
+        obtain ⟨_, _, t', hs', hp'⟩ := cached_equals_original_real empty req0 _ [rb2, rb1] url0
+          (rb1 ++ rb2 ++ trailer url0) (by unfold UrlClean; decide) (shortLines_of_length _ (by decide)) rfl
+          (by rw [hrun']) hentry
+        rw [hstream] at hs'
+        have : t' = t := by cases hs'; rfl
+        rw [← this]; exact hp'
+      · rw [herr] at hdr; cases hdr
+
+/-- real parser: a corrupt line makes `parse_async` return `Err` (nothing will be cached) -/
+example : (Real.feed Real.init (asc "MODULE Linux x86 ABC a\n!garbage\n")).isNone = true := by decide
+
+/-- real parser: an unterminated last line — the complete line is handed to the callback, and the
+    end of the response is an `Err` (`unexpected EOF`) -/
+example : (match Real.feed Real.init (asc "MODULE Linux x86 ABC a\nPUB") with
+    | some (s, cb) => cb == asc "MODULE Linux x86 ABC a\n" && (Real.finish s).isNone
+    | none => false) = true := by decide
 
 end examples
 
